@@ -213,6 +213,19 @@ def mk(op, ty, *args):
             return mk('extract', ty, hi + a.args[1], lo + a.args[1], a.args[2])
         if a.op in ('zext',) and hi < ibits(a.args[0].ty):
             return mk('extract', ty, hi, lo, a.args[0])
+        if a.op == 'or' and len(a.args) == 2:
+            # two values packed into one integer: or(shl(zext(H), s), zext(L)) with L narrower than s bits
+            # (clang passes a pair of floats as one i64 / <2 x float>)
+            for x, y in ((a.args[0], a.args[1]), (a.args[1], a.args[0])):
+                if isinstance(x, T) and isinstance(y, T) and x.op == 'shl' and is_ic(x.args[1]) and isinstance(x.args[0], T) and x.args[0].op == 'zext' \
+                        and y.op == 'zext':
+                    s_ = x.args[1].args[0]
+                    H_, L_ = x.args[0].args[0], y.args[0]
+                    if ibits(L_.ty) <= s_:
+                        if hi < s_ and hi < ibits(L_.ty):
+                            return mk('extract', ty, hi, lo, L_)
+                        if lo >= s_ and hi - s_ < ibits(H_.ty):
+                            return mk('extract', ty, hi - s_, lo - s_, H_)
     elif op == 'concat':
         h, l = args
         if h.op == 'extract' and l.op == 'extract' and h.args[2] is l.args[2] and h.args[1] == l.args[0] + 1:
